@@ -34,6 +34,16 @@ Exists(r) == \E p \in 0..r.received :
    LET tail == Cat(r.bail) \o Tail0(r, p)  n == Len(r.sink) - Len(tail) IN
    n >= 0 /\ SubSeq(r.sink, n + 1, Len(r.sink)) = tail /\ IsPrefix(SubSeq(r.sink, 1, n), r.normal)
 
+\* observers only: the rewritten part is the input itself, so "no byte lost" can be stated exactly: the raw tail starts
+\* at or before the point the emitted part reached (the documented exception lets it repeat, nothing lets it skip)
+NoLoss(r) == \E n \in 0..r.received : \E p \in 0..n : r.sink = SubSeq(r.input, 1, n) \o Cat(r.bail) \o Tail0(r, p)
+\* known finding S19: exactly the bytes of an incomplete multi-byte character that ended an earlier write (held by the
+\* text decoder, 1-3 non-ASCII bytes right before a write boundary) are missing, everything else is in place
+SigS19(r) == \E n \in 0..r.received : \E p \in (n + 1)..(IF n + 3 < r.received THEN n + 3 ELSE r.received) :
+               /\ r.sink = SubSeq(r.input, 1, n) \o Cat(r.bail) \o Tail0(r, p)
+               /\ \E j \in 1..Len(r.ends) : r.ends[j] = p
+               /\ \A i \in (n + 1)..p : r.input[i] >= 128
+
 Verdict(r) ==
   IF "failed" \in DOMAIN r THEN "C11: the baseline run (no failure injected, no limit) failed: " \o r.failed ELSE
   IF r.res = "ok" THEN (IF r.nbo # 0 THEN "C11: bail-out handler ran although nothing failed" ELSE "ok")
@@ -54,7 +64,10 @@ Verdict(r) ==
   ELSE IF r.kind = "handler" /\ r.failk = "tx" THEN
        \* documented exception: a text handler failing on a later chunk of a partly emitted node may repeat
        \* that node's already emitted part; nothing may be lost
-       (IF Exists(r) THEN "ok" ELSE "C11: received input lost after a failing text handler")
+       (IF r.passthru /\ ~NoLoss(r)
+             THEN "C11: received input lost after a failing text handler (observer configuration)" \o (IF SigS19(r) THEN " [signature:S19]" ELSE "")
+        ELSE IF ~Exists(r) THEN "C11: received input lost after a failing text handler"
+        ELSE "ok")
   ELSE IF r.kind = "handler" /\ r.failk = "de" /\ r.q >= 0 THEN
        \* a failing end handler may already have appended (part of) its document-end content, which goes
        \* to the sink immediately; then the bail-out content; no input is left
@@ -62,6 +75,8 @@ Verdict(r) ==
         ELSE "C11: after a failing end handler the sink is not the complete output followed by the bail-out content")
   ELSE IF r.kind = "handler" /\ r.p >= 0 /\ r.q >= 0 THEN
        (IF Exact(r) THEN "ok" ELSE "C11: sink is not (normal output before the failing token) + (bail-out content) + (received input from the failing token on)")
+  ELSE IF r.passthru /\ ~NoLoss(r)
+       THEN "C11: sink followed by the unwritten input is not the input (observer configuration)" \o (IF SigS19(r) THEN " [signature:S19]" ELSE "")
   ELSE IF Exists(r) THEN "ok"
   ELSE "C11: sink is not (a prefix of the normal output) + (bail-out content) + (the remaining received input)"
 
